@@ -213,6 +213,7 @@ fn gen_scn(rng: &mut Rng, quick: bool) -> Scn {
     let absent = [0, 2][rng.below(2)];
     let partials = gen::gen_partials(rng, &cfg, corrupt, absent, 4);
     cfg.partials = partials.names().iter().map(|n| gen::invocation_name(n)).collect();
+    cfg.stored = partials.names();
     cfg.absent = partials.absent.clone();
     cfg.max_nodes = cfg.max_nodes.min(16);
     let nt = 1 + rng.below(3);
